@@ -1,7 +1,7 @@
 (* Main.v — single entry point of the extracted model: one request tree in, one
    response tree out.  The OCaml driver only parses and prints trees. *)
 From Coq Require Import String List.
-From Prov Require Import Str Sexp Tables Nsm Scope Values Record World Jtree Json JsonSpec Provn ProvnSpec IO Dot Xml Rdf Interp.
+From Prov Require Import Str Sexp Tables Nsm Scope Values Record World Jtree Json JsonSpec Provn ProvnSpec XmlSpec IO Dot Xml Rdf Interp.
 Import ListNotations.
 Open Scope string_scope.
 
@@ -34,6 +34,11 @@ Definition run (req : sexp) : sexp :=
   | L [A "jsonspec"; L ft; t] =>
       match px_list px_fentry ft, px_jv 64 t with
       | Some tab, Some tree => match JsonSpec.read tab tree with Some c => c | None => L [A "none"] end
+      | _, _ => A "bad-request"
+      end
+  | L [A "xmlspec"; L ft; t] =>
+      match px_list px_fentry ft, px_xnode 64 t with
+      | Some tab, Some tree => match XmlSpec.read tab tree with Some c => c | None => L [A "none"] end
       | _, _ => A "bad-request"
       end
   | _ => A "unknown-request"
